@@ -31,6 +31,15 @@ static const char *PROP;
 static int want_kind;
 static int thorough;
 
+static const uint16_t LATE_W[] = { 16, 17, 31, 32, 33, 48, 64, 100, 128, 200, 255, /* full 32-bit wrap at block w */
+                                   16, 17, 32, 48, 64,                            /* low-byte carry at block w */
+                                   16, 32, 64 };                                  /* 16-bit carry at block w */
+#define N_LATE ((int) (sizeof LATE_W / sizeof LATE_W[0]))
+static uint32_t
+late_w(int cls)
+{
+        return LATE_W[cls - 11];
+}
 /* length sweep (in the algorithm's unit) */
 static void
 len_sweep(int a, uint32_t **out, size_t *n)
@@ -105,16 +114,30 @@ build_shapes(int a, shapes_t *S)
                                 t.ivlen = (uint8_t) A->ivlens[q];
                                 push(S, t);
                         }
-                        /* counter classes (16-byte counter block forms) */
-                        if (is_ctr)
+                        /* counter classes (16-byte counter block forms): early carries/wraps (classes 1-10) and carries /
+                         * wraps that happen at block w >= 16, i.e. inside the unrolled main loops (classes 11..) */
+                        if (is_ctr) {
+                                uint32_t nbytes = A->bitlen ? (lens[i] + 7) / 8 : lens[i];
                                 for (int c = 1; c <= 10; c++) {
-                                        if (!thorough && lens[i] > 80 * (A->bitlen ? 8u : 1u) && (lens[i] % 7))
+                                        if (!thorough && nbytes > 80 && (lens[i] % 7) && nbytes < 4000)
                                                 continue;
                                         shape_t t = s;
                                         t.ivlen = 16;
                                         t.ivclass = (uint8_t) c;
                                         push(S, t);
                                 }
+                                for (int c = 11; c < 11 + N_LATE; c++) {
+                                        uint32_t w = late_w(c);
+                                        if (w * 16 >= nbytes)
+                                                continue; /* the carry would not be reached */
+                                        if (!thorough && nbytes > 320 && nbytes < 4000)
+                                                continue;
+                                        shape_t t = s;
+                                        t.ivlen = 16;
+                                        t.ivclass = (uint8_t) c;
+                                        push(S, t);
+                                }
+                        }
                         /* other permitted tag lengths */
                         if (A->kind != AK_CIPHER) {
                                 for (int q = 1; q < 4 && A->taglens[q]; q++) {
@@ -180,6 +203,18 @@ build_shapes(int a, shapes_t *S)
                                                                 push(S, t);
                                                         }
                         }
+        }
+        if (A->family == F_GCM) {
+                /* long messages x many IVs of a length != 12: J0 comes from GHASH, so the low counter byte at the start
+                 * of the stitched main loops takes (with this many IVs) every value; the counter then carries inside
+                 * every unrolled loop variant (each shape instance draws its own IV) */
+                int nivs = thorough ? 4096 : 1024;
+                for (int q = 0; q < nivs; q++) {
+                        shape_t t = { .len = (q & 1) ? 4200 : 4137, .dir = (uint8_t) (q & 1), .inplace = (uint8_t) ((q >> 1) & 1) };
+                        t.ivlen = (uint8_t) ((q % 3) == 0 ? 16 : (q % 3) == 1 ? 13 : 24);
+                        t.aadlen = (uint16_t) (q % 21);
+                        push(S, t);
+                }
         }
         if (A->family == F_DOCSISCRC) {
                 /* canonical geometry: the cipher range starts 12 bytes into the hashed range and runs to the end of
@@ -252,6 +287,23 @@ static hset_t *distinct;
 static void
 counter_iv(uint8_t *iv, int cls, uint64_t seed)
 {
+        if (cls >= 11) {
+                int k = cls - 11;
+                uint32_t w = LATE_W[k], l;
+                fill_rand(iv, 16, seed);
+                if (k < 11) {
+                        memset(iv, 0xff, 12);
+                        l = 0u - w;
+                } else if (k < 16)
+                        l = 0x5A5A5B00u - w;
+                else
+                        l = 0x5A5B0000u - w;
+                iv[12] = (uint8_t) (l >> 24);
+                iv[13] = (uint8_t) (l >> 16);
+                iv[14] = (uint8_t) (l >> 8);
+                iv[15] = (uint8_t) l;
+                return;
+        }
         /* 16-byte counter blocks whose low 32 bits carry across 8/16/24/32 bits and wrap; upper 96 bits all ones
          * for the wrap classes so that a carry leaking upward would change the output */
         static const uint32_t low[] = { 0, 0xFD, 0xFF, 0xFFFD, 0xFFFFFD, 0xFFFFFFFD, 0xFFFFFFFE, 0xFFFFFFFF, 0x7FFFFFFF,
@@ -338,32 +390,36 @@ prep(slot_t *sl, shape_t s, int keyid, uint64_t serial)
         }
         memcpy(sl->src_copy, sl->srcbuf, (size_t) s.off + span + 32);
         it->src = sl->srcbuf;
-        memset(sl->dstbuf, CANARY, (size_t) span + 64);
+        memset(sl->dstbuf, CANARY, (size_t) span + 96);
+        /* no alignment is documented for src, dst, job->iv, AAD, tag and next_iv: rotate through all 16 phases */
+        const unsigned dm = (unsigned) ((serial / 2) % 16), im = (unsigned) ((serial / 3) % 16), tm = (unsigned) ((serial / 5) % 16),
+                       am = (unsigned) ((serial / 7) % 16), nm = (unsigned) ((serial / 11) % 16);
         if (s.inplace || A->inplace_only) {
                 it->dst = sl->srcbuf + (A->inplace_only ? 0 : s.off);
                 /* in place with offset: dst receives output at dst[0] == src[off] */
         } else
-                it->dst = sl->dstbuf + 16;
+                it->dst = sl->dstbuf + 16 + dm;
         if (A->kind == AK_HASH)
                 it->dst = NULL;
         int ivl = item_ivlen(it);
+        uint8_t *ivp = sl->iv + ((A->kind == AK_HASH) ? 0 : im); /* hash-specific IV fields are documented 16-byte aligned */
         if (s.ivclass)
-                counter_iv(sl->iv, s.ivclass, serial);
+                counter_iv(ivp, s.ivclass, serial);
         else
-                fill_rand(sl->iv, (size_t) (ivl ? ivl : 16), 555 + serial);
+                fill_rand(ivp, (size_t) (ivl ? ivl : 16), 555 + serial);
         if (A->family == F_ZUC && A->klen == 32 && ivl == 25)
                 for (int i = 17; i < 25; i++)
-                        sl->iv[i] &= 0x3f;
+                        ivp[i] &= 0x3f;
         if (A->family == F_ZUCEIA && A->klen == 32 && ivl == 25)
                 for (int i = 17; i < 25; i++)
-                        sl->iv[i] &= 0x3f;
-        it->iv = ivl ? sl->iv : NULL;
-        fill_rand(sl->aad, (size_t) s.aadlen + 1, 777 + serial);
-        it->aad = sl->aad;
-        memset(sl->tagbuf, CANARY, 128);
-        it->tag = sl->tagbuf + 16;
-        it->next_iv = sl->niv;
-        memset(sl->niv, CANARY, 32);
+                        ivp[i] &= 0x3f;
+        it->iv = ivl ? ivp : NULL;
+        fill_rand(sl->aad + am, (size_t) s.aadlen + 1, 777 + serial);
+        it->aad = sl->aad + am;
+        memset(sl->tagbuf, CANARY, 160);
+        it->tag = sl->tagbuf + 16 + tm;
+        it->next_iv = sl->niv + nm;
+        memset(sl->niv, CANARY, 64);
         /* expectation */
         const uint8_t *prev = NULL;
         uint8_t prevbuf[8] = { 0 };
@@ -403,7 +459,7 @@ check(slot_t *sl, IMB_JOB *j)
                 if (!(sl->s.inplace || A->inplace_only)) {
                         /* bytes around dst untouched, source unchanged */
                         for (int q = 0; q < 16; q++)
-                                if (sl->dstbuf[q] != CANARY || sl->dstbuf[16 + sl->nbytes + (uint32_t) q] != CANARY) {
+                                if (it->dst[-1 - q] != CANARY || it->dst[sl->nbytes + (uint32_t) q] != CANARY) {
                                         if (!(A->bitlen && q == 0)) {
                                                 viol(sl, "dst-overwrite", "bytes outside dst[0..len) were written", q);
                                                 break;
@@ -424,12 +480,12 @@ check(slot_t *sl, IMB_JOB *j)
                         viol(sl, "tag-mismatch", "tag differs from the specification", 0);
                 if (!skip && !(A->family == F_PON && sl->s.hash_len <= 4))
                         for (int q = 0; q < 16; q++)
-                                if (sl->tagbuf[q] != CANARY || sl->tagbuf[16 + tl + q] != CANARY) {
+                                if (it->tag[-1 - q] != CANARY || it->tag[tl + q] != CANARY) {
                                         viol(sl, "tag-overwrite", "bytes outside tag[0..tag_len) were written", q);
                                         break;
                                 }
         }
-        if (A->family == F_CBCS && memcmp(sl->niv, sl->exp_niv, 16))
+        if (A->family == F_CBCS && memcmp(it->next_iv, sl->exp_niv, 16))
                 viol(sl, "next-iv-mismatch", "CBCS next_iv differs", 0);
         if (A->kind == AK_HASH && memcmp(sl->srcbuf, sl->src_copy, (size_t) sl->s.off + sl->span + 32))
                 viol(sl, "src-modified", "hash job modified its source", 0);
@@ -559,9 +615,9 @@ main(int argc, char **argv)
                 SL[i].src_copy = malloc(MAXLEN + 256);
                 SL[i].exp_tag = malloc(128);
                 SL[i].iv = aligned_alloc(64, 256);
-                SL[i].aad = malloc(2048);
+                SL[i].aad = malloc(2048 + 32);
                 SL[i].tagbuf = malloc(256);
-                SL[i].niv = malloc(64);
+                SL[i].niv = malloc(96);
         }
         par_run((long) NALGS * NVARIANTS, n_workers(), run_alg_variant, crashed, NULL, 600);
         rec_begin("meta");
